@@ -281,11 +281,17 @@ fn run_cli_once(dir: &Path, opts: &CliOpts) -> Obs {
     } else {
         c.stdout(out_f).stderr(err_f);
     }
-    if opts.stdin_closed {
+    {
+        // The child may not take the machine down: 4 GiB of address space.
+        let close_stdin = opts.stdin_closed;
         unsafe {
             use std::os::unix::process::CommandExt;
-            c.pre_exec(|| {
-                libc::close(0);
+            c.pre_exec(move || {
+                let lim = libc::rlimit{rlim_cur: 4 << 30, rlim_max: 4 << 30};
+                libc::setrlimit(libc::RLIMIT_AS, &lim);
+                if close_stdin {
+                    libc::close(0);
+                }
                 Ok(())
             });
         }
